@@ -219,7 +219,7 @@ fn case_json(hist: usize, keys: &[Key]) -> Value {
 }
 
 pub fn run(ctx: &Ctx) -> i32 {
-    let dedup_depth = ctx.tier.pick(7, 11);
+    let dedup_depth = ctx.tier.pick(7, 12);
     let raw_depth = ctx.tier.pick(4, 6);
 
     let step = |acc: &mut Acc, s: &St| -> Vec<St> {
